@@ -8,12 +8,44 @@
 // is logged relative to the quotient: dq = ceil/G - Q, cr = ceil % G.  C++ only records; the verdicts
 // are TLC's (ChunkingTrace.tla).
 //
+// BOUNDARY-BIASED inputs.  The arithmetic is on ssize_t, but the values it serves are counts of 8 / 16 /
+// 32 / 64-bit index types and a uint32_t granularity, and an implementation is free to take narrower
+// paths for narrow values.  A defect of that kind lives in a window of a few values next to a power
+// of two (e.g. 2^32 - chunks < items < 2^32) that neither the grid nor random 62-bit values ever hit.
+// Therefore every width boundary 2^K (K = 7 8 15 16 24 31 32 33 48 53 62 63) is approached from both
+// sides at distances related to the chunk count (0, +-1, +-2, +-chunks/2, +-(chunks-1), +-chunks,
+// +-(chunks+1), -2*chunks), by items and - for the granular variant - also by items / g, with chunk
+// counts and granularities that are themselves small, around 2^8 / 2^16 / 2^31 / 2^32:
+//   {"e":"wide","api":..,"k":K,"d":D,"g":[..],"items":[..],"q":[..],"m":[..],"chunks":[..],
+//    "dq":..,"cr":..,"trans":[..]}
+// A 63-bit quantity is logged as three 21-bit limbs [hi, mid, lo] (a negative one as [-1,-1,-1], never
+// legal); items = (q*chunks + m)*g with m < chunks is how the driver DEFINES the input, dq / cr as above.
+// Every such call respects the documented precondition (items >= 0, chunks >= 1, nothing overflows
+// ssize_t: items + chunks - 1 <= 2^63 - 1 and ceil <= 2^63 - 1).
+//
+// The same boundaries for the real static parallel_for: ranges of 16 / 32 / 64-bit index types whose SIZE
+// is next to 2^15 / 2^16 / 2^31 / 2^32 / 2^33 / 2^48 / 2^62 / 2^63 (up to the whole domain of the 16 and
+// 32-bit types), a body that only records the [begin, end) it is given (nothing iterates):
+//   {"e":"pfw","w":bits,"sg":0|1,"k":K,"d":D,"g":G,"N":pool,"mt":maxThreads,"wait":0|1,"pos":P,
+//    "size":[..],"q":[..],"m":M,"nb":n,"b":[[do,orem,ds,lrem,gap],...],"tail":t}
+// size = (q*nt + m)*g with nt = min(N+1, mt); the bodies are sorted by begin; for the i-th (0-based)
+// do = (begin-start)/g - i*q, orem = (begin-start)%g, ds = (end-begin)/g - q, lrem = (end-begin)%g,
+// gap = begin - end of the previous body (begin - start for the first), tail = end of range - end of the last
+// (exact 128-bit arithmetic in the driver; anything that does not fit 31 bits is logged as -2147483647).
+//
 //   --out FILE --tier quick|thorough --seed S
+#include <dispenso/parallel_for.h>
 #include <dispenso/platform.h>
 #include <dispenso/util.h>
 
+#include <algorithm>
+#include <atomic>
 #include <cstdio>
+#include <limits>
+#include <map>
+#include <memory>
 #include <string>
+#include <vector>
 
 #include "../ctl/drv_common.h"
 
@@ -67,6 +99,220 @@ static void big(long long q, long long m, long long chunks, unsigned g) {
   ++gRecords;
 }
 
+// ------------------------------------------------------------------ boundary-biased inputs
+typedef __int128 i128;
+static const i128 kSsizeMax = (i128)std::numeric_limits<ssize_t>::max();
+
+// 63-bit non-negative value as three 21-bit limbs; anything else as [-1,-1,-1]
+static std::string limbs(i128 v) {
+  char buf[96];
+  if (v < 0 || v > kSsizeMax)
+    return "[-1,-1,-1]";
+  unsigned long long u = (unsigned long long)v;
+  snprintf(buf, sizeof buf, "[%llu,%llu,%llu]", u >> 42, (u >> 21) & 0x1fffffull, u & 0x1fffffull);
+  return buf;
+}
+static long long clampLog128(i128 v) {
+  return (v > 2147483647ll || v < -2147483647ll) ? -2147483647ll : (long long)v;
+}
+
+static const int kBoundaryBits[] = {7, 8, 15, 16, 24, 31, 32, 33, 48, 53, 62, 63};
+
+// distances from the boundary, as a function of the chunk count
+static std::vector<i128> distances(i128 c) {
+  std::vector<i128> d = {0, 1, 2, -1, -2, c - 1, c, c + 1, -(c - 1), -c, -(c + 1), -2 * c, -(c / 2), c / 2};
+  std::sort(d.begin(), d.end());
+  d.erase(std::unique(d.begin(), d.end()), d.end());
+  return d;
+}
+
+// one call with `units` granularity units (items = units * g); api: 0 detail 1 public 2 granular
+static bool wide(int api, int k, i128 dist, i128 units, i128 chunks, i128 g) {
+  if (units < 0 || chunks < 1 || g < 1)
+    return false;
+  i128 items = units * g;
+  // the documented precondition: nothing overflows ssize_t
+  i128 ceilU = (units + chunks - 1) / chunks;
+  if (items > kSsizeMax || chunks > kSsizeMax || units + chunks - 1 > kSsizeMax || ceilU * g > kSsizeMax ||
+      ceilU * chunks > kSsizeMax)
+    return false;
+  if (api != 2 && g != 1)
+    return false;
+  i128 q = units / chunks, m = units % chunks;
+  dispenso::detail::StaticChunking r;
+  const char* name;
+  if (api == 0) {
+    r = dispenso::detail::staticChunkSize((ssize_t)items, (ssize_t)chunks);
+    name = "detail";
+  } else if (api == 1) {
+    r = dispenso::staticChunkSize((ssize_t)items, (ssize_t)chunks);
+    name = "public";
+  } else {
+    r = dispenso::detail::staticChunkSizeGranular((ssize_t)items, (ssize_t)chunks, (uint32_t)g);
+    name = "granular";
+  }
+  // floor division / non-negative remainder also for a (wrong) negative result
+  i128 c = (i128)r.ceilChunkSize;
+  i128 cq = c / g, cr = c % g;
+  if (cr < 0) {
+    cr += g;
+    --cq;
+  }
+  fprintf(gOut,
+          "{\"e\":\"wide\",\"api\":\"%s\",\"k\":%d,\"d\":%lld,\"g\":%s,\"items\":%s,\"q\":%s,\"m\":%s,\"chunks\":%s,"
+          "\"dq\":%lld,\"cr\":%lld,\"trans\":%s}\n",
+          name, k, clampLog128(dist), limbs(g).c_str(), limbs(items).c_str(), limbs(q).c_str(), limbs(m).c_str(),
+          limbs(chunks).c_str(), clampLog128(cq - q), clampLog128(cr), limbs((i128)r.transitionTaskIndex).c_str());
+  ++gRecords;
+  return true;
+}
+
+static void boundaries(bool thorough) {
+  const i128 one = 1;
+  // chunk counts: small ones (thread counts), and the width boundaries themselves
+  std::vector<i128> core = {1, 2, 3, 4, 7, 8, 16, 17, 32, 64, 255, 256, 65536, (one << 31) - 1, one << 31,
+                            (one << 32) - 1, one << 32};
+  std::vector<i128> more = {5, 6, 9, 12, 15, 31, 33, 40, 63, 65, 100, 127, 128, 129, 257, 1000, 65535, 65537,
+                            (one << 31) + 1, (one << 32) + 1, (one << 33) - 1, (one << 48), (one << 62) - 1};
+  std::vector<i128> gs = {2, 3, 4, 5, 7, 8, 16, 64, 255, 256, 65535, 65536, (one << 31) - 1, one << 31,
+                          (one << 32) - 1};
+  std::vector<i128> cs = core;
+  if (thorough)
+    cs.insert(cs.end(), more.begin(), more.end());
+  else
+    for (int j = 0; j < 6; ++j)
+      cs.push_back(more[rnd() % more.size()]);
+  for (i128 c : cs)
+    for (int k : kBoundaryBits)
+      for (i128 d : distances(c)) {
+        i128 t = (one << k) + d;
+        // g = 1: the public function always, the detail function half of the time
+        wide(1, k, d, t, c, 1);
+        if (thorough || (rnd() & 1))
+          wide(0, k, d, t, c, 1);
+        // granular: items next to the boundary (t rounded down to a multiple of g), and items / g
+        // next to the boundary
+        int ng = thorough ? 4 : 1;
+        for (int j = 0; j < ng; ++j) {
+          i128 g = gs[rnd() % gs.size()];
+          wide(2, k, d, t / g, c, g);
+          i128 g2 = gs[rnd() % gs.size()];
+          wide(2, k, d, t, c, g2);
+        }
+      }
+}
+
+// ------------------------------------------------------------------ static parallel_for over huge ranges
+struct Pools {
+  std::map<int, std::unique_ptr<dispenso::ThreadPool>> m;
+  dispenso::ThreadPool& get(int n) {
+    auto it = m.find(n);
+    if (it == m.end())
+      it = m.emplace(n, std::make_unique<dispenso::ThreadPool>((size_t)n)).first;
+    return *it->second;
+  }
+};
+
+struct Slots {
+  std::atomic<size_t> n{0};
+  std::vector<std::pair<i128, i128>> v;
+};
+
+// position of the range in the type: 0 starts at the minimum, 1 ends at the maximum, 2 starts at 0 /
+// around the middle
+template <class T>
+static bool hugeCase(Pools& pools, int k, i128 dist, i128 units, uint32_t g, int pos, int N, uint32_t mt,
+                     bool wait, int api) {
+  using L = std::numeric_limits<T>;
+  const i128 lo = (i128)L::min(), hi = (i128)L::max();
+  i128 nt = std::min<i128>((i128)N + 1, (i128)mt);
+  i128 size = units * (i128)g;
+  // the documented limits: the range fits the type and its size fits int64_t (ChunkedRange::size_type)
+  if (units < 4 * nt || size > hi - lo || size + nt - 1 > kSsizeMax)
+    return false;
+  i128 S = pos == 0 ? lo : pos == 1 ? hi - size : (L::is_signed ? -(size / 2) : (hi - size) / 2);
+  if (S < lo || S + size > hi)
+    return false;
+  i128 q = units / nt, m = units % nt;
+  auto sl = std::make_shared<Slots>();
+  sl->v.resize(256);
+  auto body = [sl](T b, T e) {
+    size_t idx = sl->n.fetch_add(1, std::memory_order_relaxed);
+    if (idx < sl->v.size())
+      sl->v[idx] = std::make_pair((i128)b, (i128)e);
+  };
+  dispenso::ParForOptions opt;
+  opt.defaultChunking = dispenso::ParForChunking::kStatic;
+  opt.maxThreads = mt;
+  opt.wait = wait;
+  opt.granularity = g;
+  {
+    dispenso::TaskSet ts(pools.get(N));
+    if (api == 0)
+      dispenso::parallel_for(ts, (T)S, (T)(S + size), body, opt);
+    else
+      dispenso::parallel_for(ts, dispenso::makeChunkedRange((T)S, (T)(S + size), dispenso::ParForChunking::kStatic),
+                             body, opt);
+    ts.wait();
+  }
+  size_t n = std::min(sl->n.load(), sl->v.size());
+  std::vector<std::pair<i128, i128>> b(sl->v.begin(), sl->v.begin() + (long)n);
+  std::sort(b.begin(), b.end());
+  std::string s;
+  char buf[320];
+  snprintf(buf, sizeof buf,
+           "{\"e\":\"pfw\",\"w\":%d,\"sg\":%d,\"k\":%d,\"d\":%lld,\"g\":%u,\"N\":%d,\"mt\":%lld,\"wait\":%d,\"pos\":%d,"
+           "\"api\":%d,\"size\":%s,\"q\":%s,\"m\":%lld,\"nb\":%zu,\"b\":[",
+           (int)sizeof(T) * 8, L::is_signed ? 1 : 0, k, clampLog128(dist), g, N,
+           (long long)std::min<uint32_t>(mt, 1000000u), wait ? 1 : 0, pos, api, limbs(size).c_str(), limbs(q).c_str(),
+           (long long)m, sl->n.load());
+  s = buf;
+  for (size_t i = 0; i < n; ++i) {
+    i128 off = b[i].first - S, len = b[i].second - b[i].first;
+    i128 oq = off / g, orem = off % g, lq = len / g, lrem = len % g;
+    i128 gap = b[i].first - (i ? b[i - 1].second : S);
+    snprintf(buf, sizeof buf, "%s[%lld,%lld,%lld,%lld,%lld]", i ? "," : "", clampLog128(oq - (i128)i * q),
+             clampLog128(orem), clampLog128(lq - q), clampLog128(lrem), clampLog128(gap));
+    s += buf;
+  }
+  snprintf(buf, sizeof buf, "],\"tail\":%lld}\n", n ? clampLog128(S + size - b[n - 1].second) : -2147483647ll);
+  s += buf;
+  fputs(s.c_str(), gOut);
+  ++gRecords;
+  return true;
+}
+
+template <class T>
+static void hugeRanges(Pools& pools, bool thorough) {
+  const i128 one = 1;
+  const int bits = (int)sizeof(T) * 8;
+  for (int k : {15, 16, 31, 32, 33, 48, 62, 63}) {
+    if (k > bits)
+      continue;
+    std::vector<int> Ns = {1, 3, 15};
+    static const int moreN[] = {2, 4, 7, 8, 16, 31};
+    Ns.push_back(moreN[rnd() % 6]);
+    if (thorough)
+      Ns.insert(Ns.end(), moreN, moreN + 6);
+    for (int N : Ns) {
+      uint32_t mt = (rnd() % 4 == 0 && N > 2) ? (uint32_t)(2 + rnd() % (unsigned)(N - 1)) : 0x7fffffffu;
+      i128 nt = std::min<i128>((i128)N + 1, (i128)mt);
+      for (i128 d : distances(nt)) {
+        uint32_t g = (rnd() % 3 == 0) ? (uint32_t)(2 + rnd() % 7) : 1u;
+        i128 t = (one << k) + d;
+        int pos = (int)(rnd() % 3);
+        bool wait = rnd() % 3 != 0;
+        int api = (int)(rnd() % 2);
+        // size next to the boundary; with g > 1 also size / g next to the boundary
+        if (!hugeCase<T>(pools, k, d, t / g, g, pos, N, mt, wait, api))
+          hugeCase<T>(pools, k, d, t / g, g, 2, N, mt, wait, api);
+        if (g > 1 && !hugeCase<T>(pools, k, d, t, g, pos, N, mt, wait, api))
+          hugeCase<T>(pools, k, d, t, g, 2, N, mt, wait, api);
+      }
+    }
+  }
+}
+
 int main(int argc, char** argv) {
   drv::Args args(argc, argv);
   bool thorough = args.str("tier", "quick") == "thorough";
@@ -108,6 +354,17 @@ int main(int argc, char** argv) {
       default: m = (long long)(rnd() % chunks); break;
     }
     big(q, m, chunks, g);
+  }
+  // values next to every width boundary, and the real static parallel_for over ranges of such sizes
+  boundaries(thorough);
+  {
+    Pools pools;
+    hugeRanges<uint32_t>(pools, thorough);
+    hugeRanges<int32_t>(pools, thorough);
+    hugeRanges<uint64_t>(pools, thorough);
+    hugeRanges<int64_t>(pools, thorough);
+    hugeRanges<uint16_t>(pools, thorough);
+    hugeRanges<int16_t>(pools, thorough);
   }
   fclose(gOut);
   printf("DRIVER executions=%lld steps=%lld completed=%lld deadlocks=0 diverged=0 stuck=0\n", gRecords, gRecords, gRecords);
